@@ -412,16 +412,54 @@ fn c05_asset_binary_reader() {
 // @tier quick
 // @timeout 900
 // @mem 12
-// @bounds the NUL-terminated string readers over concrete data: UTF-16 data ending inside a code unit (archive reader and byte cursor), unterminated Shift-JIS data, a terminated UTF-16 string (solver-chosen arm)
-// @claims the string readers used by every archive-family parser return UnterminatedString (never panic) when the data ends before the terminator, also in the middle of a UTF-16 code unit; a terminated string is read and the archive reader re-aligns to 4 bytes
+// @bounds the NUL-terminated string readers of the byte cursor over concrete data: UTF-16 data ending inside a code unit, UTF-16 data ending on a unit boundary without terminator, unterminated Shift-JIS data, a terminated UTF-16 string (solver-chosen arm)
+// @claims the string readers shared by every archive-family parser return UnterminatedString (never panic) when the data ends before the terminator, also in the middle of a UTF-16 code unit; a terminated string is read
 // @assume encoding_rs decode replaced by the 7-bit model (stubs.rs)
 #[kani::proof]
 #[kani::unwind(14)]
 #[kani::stub(encoding_rs::Encoding::decode, crate::stubs::decode_ascii_model)]
 fn c05_string_readers() {
-    use mila::{BinArchiveReader, EncodedStringReader};
+    use mila::EncodedStringReader;
     let sel: u8 = kani::any();
     kani::assume(sel < 4);
+    if sel == 0 {
+        let data: [u8; 5] = [b'A', 0, b'B', 0, b'C'];
+        let mut c = std::io::Cursor::new(&data[..]);
+        assert!(keep(c.read_utf_16_string()).is_none(), "C05: UTF-16 data that ends inside a code unit must be an error, not a panic");
+    }
+    if sel == 1 {
+        let data: [u8; 4] = [b'A', 0, b'B', 0];
+        let mut c = std::io::Cursor::new(&data[..]);
+        assert!(keep(c.read_utf_16_string()).is_none(), "C05: unterminated UTF-16 data must be an error");
+    }
+    if sel == 2 {
+        let data: [u8; 4] = [b'a', b'b', b'c', b'd'];
+        let mut c = std::io::Cursor::new(&data[..]);
+        assert!(keep(c.read_shift_jis_string()).is_none(), "C05: unterminated Shift-JIS text must be an error");
+    }
+    if sel == 3 {
+        let data: [u8; 6] = [b'A', 0, 0, 0, 9, 9];
+        let mut c = std::io::Cursor::new(&data[..]);
+        let s = keep(c.read_utf_16_string());
+        assert!(matches!(&s, Some(x) if x == "A"), "C05: a terminated UTF-16 string is read");
+        std::mem::forget(s);
+    }
+    kani::cover!(sel == 3);
+}
+
+// @tier thorough
+// @timeout 3600
+// @mem 40
+// @bounds the string readers of the archive reader over small concrete archives: UTF-16 data ending inside a code unit, unterminated Shift-JIS data, a terminated UTF-16 string (solver-chosen arm)
+// @claims as c05_string_readers through BinArchiveReader; after a string the reader re-aligns to the next 4-byte boundary
+// @assume encoding_rs decode replaced by the 7-bit model (stubs.rs)
+#[kani::proof]
+#[kani::unwind(14)]
+#[kani::stub(encoding_rs::Encoding::decode, crate::stubs::decode_ascii_model)]
+fn c05_archive_string_readers() {
+    use mila::{BinArchiveReader, EncodedStringReader};
+    let sel: u8 = kani::any();
+    kani::assume(sel < 3);
     if sel == 0 {
         let a = concrete_archive(&[0, 0, 0, 0, b'A', 0, b'B', 0, b'C']);
         let mut r = BinArchiveReader::new(&a, 4);
@@ -429,17 +467,12 @@ fn c05_string_readers() {
         std::mem::forget(a);
     }
     if sel == 1 {
-        let data: [u8; 5] = [b'A', 0, b'B', 0, b'C'];
-        let mut c = std::io::Cursor::new(&data[..]);
-        assert!(keep(c.read_utf_16_string()).is_none(), "C05: UTF-16 data that ends inside a code unit must be an error, not a panic");
-    }
-    if sel == 2 {
         let a = concrete_archive(&[b'a', b'b', b'c', b'd']);
         let mut r = BinArchiveReader::new(&a, 0);
         assert!(keep(r.read_shift_jis_string()).is_none(), "C05: unterminated Shift-JIS text must be an error");
         std::mem::forget(a);
     }
-    if sel == 3 {
+    if sel == 2 {
         let a = concrete_archive(&[b'A', 0, 0, 0, 9, 9, 9, 9]);
         let mut r = BinArchiveReader::new(&a, 0);
         let s = keep(r.read_utf_16_string());
@@ -448,7 +481,7 @@ fn c05_string_readers() {
         std::mem::forget(s);
         std::mem::forget(a);
     }
-    kani::cover!(sel == 3);
+    kani::cover!(sel == 2);
 }
 
 // @tier quick
